@@ -25,9 +25,22 @@ from . import refimpl as R
 from . import keys as K
 from .sched import Scheduler, count_steps
 
-OPS = ["ensure_kid", "thumbprint", "as_dict_pub", "as_dict", "keyset_new", "get_kid", "sign", "sign2", "sign_ks", "verify", "verify2", "encrypt", "encrypt2", "decrypt", "decrypt2"]
-CRYPTO = {"sign", "sign2", "sign_ks", "verify", "verify2", "encrypt", "encrypt2", "decrypt", "decrypt2"}
+OPS = ["ensure_kid", "thumbprint", "as_dict_pub", "as_dict", "keyset_new", "get_kid", "sign", "sign2", "sign_ks", "verify", "verify2", "encrypt", "encrypt2", "decrypt", "decrypt2",
+       "decrypt_zip", "decrypt_zip_over"]
+CRYPTO = {"sign", "sign2", "sign_ks", "verify", "verify2", "encrypt", "encrypt2", "decrypt", "decrypt2", "decrypt_zip", "decrypt_zip_over"}
+ZIP_SMALL = b"compressed plaintext " * 40
+ZIP_OVER = 256_000 + 300
+_ZTOK: dict = {}
+
+
+def zip_tokens(kind, jalg, jwk):
+    """DEF tokens within and beyond the decompression limit (refimpl-made; cached: they are immutable strings)"""
+    if kind not in _ZTOK:
+        _ZTOK[kind] = (R.jwe_compact(R.jwe_encrypt({"alg": jalg, "enc": "A128GCM", "zip": "DEF"}, ZIP_SMALL, [{"jwk": jwk}])),
+                       R.jwe_compact(R.jwe_encrypt({"alg": jalg, "enc": "A128GCM", "zip": "DEF"}, b"over the limit " * (ZIP_OVER // 15 + 1), [{"jwk": jwk}])))
+    return _ZTOK[kind]
 LAZY = set(OPS)
+JWE_OPS = ("encrypt", "decrypt", "encrypt2", "decrypt2", "decrypt_zip", "decrypt_zip_over")
 
 
 class World:
@@ -61,6 +74,7 @@ class World:
             if kind != "OKP:Ed25519" else None
         self.jwe_token2 = R.jwe_compact(R.jwe_encrypt(dict(self.hdr2), b"another secret plaintext!", [{"jwk": self.jwk}])) \
             if kind != "OKP:Ed25519" else None
+        self.zip_token, self.zip_over = zip_tokens(kind, self.jalg, self.jwk) if kind != "OKP:Ed25519" else (None, None)
 
     def op(self, name):
         from joserfc import jws, jwe
@@ -94,6 +108,15 @@ class World:
             def f(): return ("payload", jws.deserialize_compact(w.token, w.pub, algorithms=[w.alg]).payload)
         elif name == "encrypt":
             def f(): return ("jwe", jwe.encrypt_compact({"alg": w.jalg, "enc": "A128GCM"}, b"plaintext", w.pub, algorithms=[w.jalg, "A128GCM"]))
+        elif name == "decrypt_zip":
+            def f(): return ("plaintext_zip", jwe.decrypt_compact(w.zip_token, w.key, algorithms=[w.jalg, "A128GCM", "DEF"]).plaintext)
+        elif name == "decrypt_zip_over":
+            def f():
+                from joserfc.errors import ExceededSizeError
+                try:
+                    return ("over", len(jwe.decrypt_compact(w.zip_over, w.key, algorithms=[w.jalg, "A128GCM", "DEF"]).plaintext))
+                except ExceededSizeError:
+                    return ("over", "refused")
         elif name == "decrypt":
             def f(): return ("plaintext", jwe.decrypt_compact(w.jwe_token, w.key, algorithms=[w.jalg, "A128GCM", "DEF"]).plaintext)
         else:
@@ -132,6 +155,8 @@ class World:
             except Exception as e:  # noqa
                 return f"produced token does not decrypt: {e}"
         if kind == "plaintext": return None if v == b"secret plaintext" else "decrypted plaintext differs"
+        if kind == "plaintext_zip": return None if v == ZIP_SMALL else "decompressed plaintext differs"
+        if kind == "over": return None if v == "refused" else f"plaintext beyond the decompression limit returned ({v} octets)"
         return f"unknown result {kind}"
 
 
@@ -160,6 +185,115 @@ def run_schedule(kind, names, preempts, first):
     if len(set(ivs)) != len(ivs):
         problems.append("concurrent encryptions share an IV")
     return problems, s
+
+
+# ----------------------------------------------------------------------------- B2: access-level trace validation
+MODEL_OP = {"ensure_kid": "ensure_kid", "keyset_new": "ensure_kid", "thumbprint": "view", "as_dict": "view", "as_dict_pub": "iterate",
+            "get_kid": "read_kid", "sign": "view", "decrypt": "view"}
+
+
+class Recorder:
+    """observer of the scheduler: projects the real key object onto the state of Shared.tla after every source line"""
+
+    def __init__(self, key):
+        self.key = key
+        self.dicts = []          # every dict object key._dict_value was ever bound to (kept alive: ids stay unique)
+        self.events = []
+        self.last = self.project()
+
+    def project(self):
+        d = self.key.__dict__.get("_dict_value")
+        if not any(d is x for x in self.dicts):
+            self.dicts.append(d)
+        ptr = next(i for i, x in enumerate(self.dicts) if x is d)
+        return ptr, [[("kty" in x), ("kid" in x)] for x in self.dicts]
+
+    def line(self, t):
+        now = self.project()
+        if now != self.last:
+            self.events.append({"kind": "state", "t": t + 1, "ptr": now[0], "heap": now[1], "ret": ""})
+            self.last = now
+
+    def running(self, t):
+        self.events.append({"kind": "run", "t": t + 1, "ptr": 0, "heap": [], "ret": ""})
+
+    def returned(self, t, res, err):
+        self.line(t)
+        if err is not None:
+            r = "error:" + err[0]
+        elif res[0] == "kid": r = "kid"
+        elif res[0] == "maybekid": r = "kid" if res[1] else "nokid"
+        elif res[0] == "dict" and self.op_names[t] == "as_dict_pub": r = "iter_kid" if "kid" in res[1] else "iter_nokid"
+        else: r = "none"
+        self.events.append({"kind": "ret", "t": t + 1, "ptr": 0, "heap": [], "ret": r})
+
+
+def record_traces(args):
+    """real executions of pairs of key operations under seeded one- and two-preemption schedules -> traces for TraceShared.tla"""
+    kind, a, b, n, seed = args
+    from .common import _pool_init
+    _pool_init()
+    na, nb = count_steps(World(kind).op(a)), count_steps(World(kind).op(b))
+    rnd = random.Random(f"trace-{seed}-{kind}-{a}-{b}")
+    out = []
+    for i in range(n):
+        w = World(kind)
+        first = rnd.randrange(2)
+        pre = [(0, rnd.randrange(1, na + 1)), (1, rnd.randrange(1, nb + 1))][:1 + i % 2] if i % 3 else [(first, rnd.randrange(1, (na, nb)[first] + 1))]
+        rec = Recorder(w.key); rec.op_names = [a, b]
+        s = Scheduler([w.op(a), w.op(b)], pre, first, observer=rec).run()
+        if s.stuck:
+            continue
+        out.append({"name": f"{kind}:{a}||{b} preempts={pre} first={first}", "ops": [MODEL_OP[a], MODEL_OP[b]], "events": rec.events,
+                    "replay": {"kind": kind, "ops": [a, b], "preempts": pre, "first": first}})
+    return out
+
+
+def trace_validate(ctx: Ctx, traces, name):
+    f = ctx.scratch / f"shared_{name}.json"
+    f.write_text(json.dumps([{"ops": t["ops"], "events": t["events"]} for t in traces]))
+    r = ctx.tlc("TraceShared", env={"TRACE_FILE": str(f)}, timeout=1200)
+    if not r.cases:
+        raise MachineryError("TraceShared produced no report")
+    rep = r.cases[-1]
+    return [(t, reached) for t, reached, ln in zip(traces, rep["reached"], rep["len"]) if reached != ln + 1]
+
+
+def trace_pass(ctx: Ctx, thorough: bool):
+    import multiprocessing as mp
+    from .common import NCPU
+    names = list(MODEL_OP)
+    tasks = [(kind, a, b, 12 if thorough else 3, ctx.seed) for kind in (("EC:P-256", "oct256", "RSA2048") if thorough else ("EC:P-256", "oct256"))
+             for i, a in enumerate(names) for b in names[i:]]
+    with mp.get_context("fork").Pool(NCPU) as pool:
+        traces = [t for ts in pool.map(record_traces, tasks, chunksize=1) for t in ts]
+    if len(traces) < 100:
+        raise MachineryError(f"only {len(traces)} shared-key traces recorded")
+    B = 150
+    rejected = []
+    from concurrent.futures import ThreadPoolExecutor
+    jobs = [traces[i:i + B] for i in range(0, len(traces), B)]
+    with ThreadPoolExecutor(8) as ex:
+        for rj in ex.map(lambda jb: trace_validate(ctx, jb[1], f"b{jb[0]}"), list(enumerate(jobs))):
+            rejected += rj
+    for t, reached in rejected:
+        ev = t["events"][reached - 1] if 0 < reached <= len(t["events"]) else None
+        ctx.violation(f"shared:trace {t['replay']['ops'][0]}||{t['replay']['ops'][1]} -> execution is not a behaviour of Shared.tla at a {ev['kind'] if ev else '?'} event",
+                      {**t["replay"], "unmatched_event": ev, "position": reached, "events": t["events"]})
+    # binding demonstration: a recorded trace in which the view is rebound to a new dict object must be rejected
+    import copy
+    base = next((t for t in traces if any(e["kind"] == "state" for e in t["events"])), None)
+    if base is None:
+        raise MachineryError("no recorded trace contains a state change")
+    bad = copy.deepcopy(base)
+    e = next(e for e in bad["events"] if e["kind"] == "state")
+    e["ptr"] = 1; e["heap"] = [[False, False], e["heap"][0]]
+    if not trace_validate(ctx, [bad], "demo"):
+        raise MachineryError("binding demonstration failed: a trace with a rebound view was accepted by TraceShared")
+    ctx.traces += len(traces)
+    ctx.evaluations += sum(len(t["events"]) for t in traces)
+    ctx.notes["shared_traces"] = {"traces": len(traces), "events": sum(len(t["events"]) for t in traces), "rejected": len(rejected),
+                                  "binding_demo": "a trace whose state event rebinds the view to a new dict object is rejected"}
 
 
 def explore(args):
@@ -199,7 +333,7 @@ def stress(args):
         for it in range(iters):
             w = World(kind)
             rnd = random.Random(f"{seed}-{it}")
-            names = [rnd.choice([o for o in OPS if not (o in ("encrypt", "decrypt", "encrypt2", "decrypt2") and w.jwe_token is None)]) for _ in range(nthreads)]
+            names = [rnd.choice([o for o in OPS if not (o in JWE_OPS and w.jwe_token is None)]) for _ in range(nthreads)]
             res, err = [None] * nthreads, [None] * nthreads
             start = threading.Barrier(nthreads)
 
@@ -233,7 +367,7 @@ def histories(ctx: Ctx, n: int):
     for seq in seqs:
         w = World(["EC:P-256", "RSA2048", "oct256"][len(seq) % 3])
         for i, name in enumerate(seq):
-            if name in ("encrypt", "decrypt", "encrypt2", "decrypt2") and w.jwe_token is None:
+            if name in JWE_OPS and w.jwe_token is None:
                 continue
             cnt += 1
             try:
@@ -285,6 +419,7 @@ def run(ctx: Ctx) -> None:
         ncalls += calls
         for p in problems[:3]:
             ctx.violation(f"shared:stress -> {p.split(':', 1)[-1].strip()[:60]}", {"problem": p})
+    trace_pass(ctx, thorough)
     seqs, cnt, bad = histories(ctx, 400 if thorough else 60)
     for prefix, name, p in bad[:5]:
         ctx.violation(f"shared:history {name} after {len(prefix) - 1} calls -> {p[:60]}", {"history": prefix, "problem": p})
